@@ -123,6 +123,19 @@ Definition corpus : list (string * (style * prog)) :=
                           ELit (LStr " "); EPrim (PLNth BMI) [EGlob 0; mi 2]]);
            IStmt (SForIn BMI (EGlob 0) [SExit (EPrim (PEq NMI) [ELoc 0; mi 4]) SIterate; SPrint [ELoc 0]]);
            IStmt (SForIn BStr (EGlob 1) [SPrint [ELoc 0]; SBreak])]));
+    ("domain-defaults",
+     (sq, [IVar (TBox DA NMI) (EPrim (PBox DA NMI) [mi 5]);
+           IVar (TBox DB NInt) (EPrim (PBox DB NInt) [ELit (LNum NInt 7)]);
+           IVar (TBox DB NMI) (EPrim (PBox DB NMI) [mi 9223372036854775807]);
+           IStmt (SPrint [EPrim (PUnbox DA NMI) [EPrim (PBump DA NMI) [EGlob 0]]; ELit (LStr " ");
+                          EPrim (PUnbox DA NMI) [EPrim (PTwice DA NMI) [EGlob 0]]; ELit (LStr " ");
+                          EPrim (PUnbox DA NMI) [EPrim (PScale DA NMI) [EGlob 0; mi 3]]]);
+           IStmt (SPrint [EPrim (PUnbox DB NInt) [EPrim (PBump DB NInt) [EGlob 1]]; ELit (LStr " ");
+                          EPrim (PUnbox DB NInt) [EPrim (PTwice DB NInt) [EGlob 1]]; ELit (LStr " ");
+                          EPrim (PUnbox DB NInt) [EPrim (PScale DB NInt) [EGlob 1; ELit (LNum NInt 3)]]]);
+           IStmt (SPrint [EPrim (PUnbox DB NMI) [EPrim (PBump DB NMI) [EGlob 2]]; ELit (LStr " ");
+                          EPrim (PUnbox DB NMI) [EPrim (PTwice DB NMI) [EGlob 2]]; ELit (LStr " ");
+                          EPrim (PUnbox DB NMI) [EPrim (PScale DB NMI) [EGlob 2; mi 2]]])]));
     ("string-escapes",
      (sq, [IStmt (SPrint [ELit (LStr "a_b""c__d"); EPrim PLen [ELit (LStr "_""")]])]))
   ].
